@@ -26,7 +26,7 @@ UNLISTED = ["Take", "Skip", "OrderBy", "Filter", "select", "Total", "Foo", "firs
 
 LEVEL = ("Coq theorems over the executable model `ext` (operator list regenerated from the source on every run) and over "
          "`ext_with ops` for any function_names list: ext_exact (relational spec: exactly v.op(args) with op listed becomes "
-         "op(v,args) without keywords, congruence on every other node class), ext_complete (no method-form operator call "
+         "op(v,args,keywords), congruence on every other node class), ext_complete (no method-form operator call "
          "left at any depth), ext_idem, ext_fixpoints, ext_sem (for every backend, environment and query whose method-form "
          "operator calls carry no keywords: original evaluates to v => rewritten evaluates to v; induction through lambda "
          "bodies, keyword values, nested calls); model tied to the code by exact differential comparison.")
@@ -39,7 +39,7 @@ TRUSTED = ["Coq 8.16.1 kernel (coqc); no axioms (Print Assumptions: closed under
 ASSUME = ["reference semantics Base/Eval.v: first-order values, lambdas only as operator arguments / immediate callees; "
           "s.Op(args) and Op(s, args) are interpreted by two separate clauses given the same operator list",
           "ext_sem hypothesis ops_kw_free: method-form operator calls carry no keywords (the form seq.Op(args...) the "
-          "property states); the code drops such keywords - observed, recorded, not claimed as a violation"]
+          "property states); the keywords stay with the rewritten call (structural oracle; F39 - they used to be dropped)"]
 RULE = ("corpus, then all expressions of the C17 grammar up to size N (listed and unlisted method names of the same shape, "
         "function form, bare attributes named like operators, lambdas, keyword values, callee positions), seeded random "
         "expressions, typed random queries evaluated on 5 datasets (incl. empty), custom function_names lists, a malformed "
@@ -105,7 +105,7 @@ def structural_ok(e, st, out, names):
     if st != "ok":
         return False, "raises " + str(out)
     d = dump(out)
-    if d != dump(spec(e, names)) and not (kw_on_method_op(e, names) and d == dump(spec(e, names, keep_kw=True))):
+    if d != dump(spec(e, names, keep_kw=True)):      # arguments given by keyword stay with the call (F39)
         return False, "output differs from `rewrite exactly the method-form operator calls`"
     if method_op_left(out, names):
         return False, "a method-form operator call is left in the output"
